@@ -57,7 +57,7 @@ if os.path.exists(rp):
         f = l.split('\t')
         res[f[0]] = f
 sec9 = ["## 9. Seeded changes: which check catches what", "",
- "One hundred and four realistic code changes (`seeded/<id><A-F>/`) were written by fresh sub-agents that were given only the property text and a",
+ "One hundred and twenty realistic code changes (`seeded/<id><A-F>/`) were written by fresh sub-agents that were given only the property text and a",
  "scratch git worktree of `/repo` -- nothing from `/verif`; later rounds were also told the mechanisms of the earlier ones so that they would look elsewhere.",
  "Each change compiles and keeps the repository's suite green; each comes with a demonstration",
  "test that passes on the unchanged tree and fails with the patch, which I re-ran myself in a scratch worktree before keeping the change",
@@ -73,16 +73,32 @@ sec9 = ["## 9. Seeded changes: which check catches what", "",
  "| 2 (C, D; 12 properties) | 24 | 16 (after I had extended three specifications for misses I expected from the authors' reports) | 8 |",
  "| 3 (C, D; the other 8 properties) | 16 | 4 | 12 |",
  "| 4 (E, F; the 12 properties of batch 2) | 24 | 8 (`seeded/ROUND4_AS_STOOD.tsv`) | 16 |",
+ "| 5 (E, F; the 8 properties of batch 3) | 16 | 4 (`seeded/ROUND5_AS_STOOD.tsv`) | 12 |",
  "",
  "So from the second batch on roughly half to two thirds of the fresh changes slipped through checks that had caught everything before -- the scopes",
  "chosen while building had been shaped by the defects found while building. Every miss pointed at a dimension the specification had left out (a",
  "spelling of a prefix, how a registration is written, a value class, a second application, a recycled buffer, a failing handler, a request in the middle",
  "of the program, another component's clock, the collector's gap, call sequences on a holder ...), and the *specification* -- not just the driver -- was",
- "extended until the change was caught; no check was loosened. Extending it found three more genuine defects on the way (`f401b3b`, `6d15e73`,",
+ "extended until the change was caught; no check was loosened. Extending it found five more genuine defects on the way (`f401b3b`, `6d15e73`, `STARFIX`, `RESETFIX`,",
  "`C18-set-reorders-other-values`). Final state: every live change is caught by the quick tier (table below), 3 are neutralised by my own fixes.",
  "The notes column says what was added.", "",
  "| seed | change (one line) | caught by (quick tier) | rc | violations | notes |", "|---|---|---|---|---|---|"]
 NOTES = {
+ 'C02E': 'missed at first; every endpoint route is followed by its escape twin (found `STARFIX`)',
+ 'C02F': 'missed at first; a custom constraint registered under the built-in name `float`',
+ 'C03E': 'caught as the check stood', 'C03F': 'caught as the check stood',
+ 'C06E': 'missed at first; shape `unmatched`, accessor `routepath`',
+ 'C06F': 'missed at first; `SendFile` among the churn steps, a connection whose buffers have grown',
+ 'C08E': 'missed at first; forests mounted through a `Group`',
+ 'C08F': 'missed at first; error kind `wrapped418`',
+ 'C10E': 'missed at first; zone-suffixed IPv6 literals in the forwarded list',
+ 'C10F': 'caught as the check stood',
+ 'C12E': 'missed at first (then hidden behind the driver\'s record cap); text class `pct`',
+ 'C12F': 'missed at first; `Faults` (failing receiver, failing error handler)',
+ 'C19E': 'missed at first; configuration `blank`',
+ 'C19F': 'caught as the check stood',
+ 'C20E': 'missed at first; value class `huge`',
+ 'C20F': 'missed at first; value class `issued`',
  'C01E': 'missed at first; `Router.tla` got `Vias` (registration through a group / with the prefix in a list)',
  'C01F': 'missed at first; `Router.tla` got `NormRespected` over the measured match relation (`EquivTable`)',
  'C04E': 'caught as the check stood',
